@@ -135,9 +135,10 @@ PLANS = {
     "C06": plan("one evaluation = one pipeline on a real tokio runtime (paused-time current-thread or multi-thread with 2-8 workers): a Uni (4 executor kinds x 5 channel kinds, MAX_STREAMS 1-2) or a Multi (futures-fallible / "
                 "plain executor x 6 channel kinds, 1-3 listeners, optionally one listener dropped unconsumed beforehand), concurrency limit 1-4, 0-48 events whose per-event behaviour is drawn from {sync, ready future, "
                 "future with 1-3 yields, future sleeping, failing}; after the sends close(Duration::ZERO) is awaited and the closing task itself snapshots: every accepted event finished by every entitled stream, "
-                "running_streams_count == 0, channel not open; distinct = distinct (behaviour sequence, config); non-trivial = at least one event",
-                [dict(flavor="fast", lane="free", secs=20), dict(flavor="asan", lane="free", secs=12, shards=8)],
-                [dict(flavor="fast", lane="free", secs=240), dict(flavor="checked", lane="free", secs=100), dict(flavor="asan", lane="free", secs=120)], 1000, 10000,
+                "running_streams_count == 0, channel not open; workload `storm`: batches of 200 small Unis (0-3 events, half of them with cancel_all_streams() right before the close, a third with a second concurrent close) "
+                "opened and closed back to back on one multi-thread runtime, same snapshot oracle -- the closing task's wake-ups race streams that are ending and being dropped on other workers; distinct = distinct (behaviour sequence, config); non-trivial = at least one event",
+                [dict(flavor="fast", lane="free", secs=20), dict(flavor="asan", lane="free", secs=12, shards=8), dict(flavor="fast", lane="free", secs=8, args=["--set", "workload=storm"]), dict(flavor="asan", lane="free", secs=8, shards=8, args=["--set", "workload=storm"])],
+                [dict(flavor="fast", lane="free", secs=240), dict(flavor="checked", lane="free", secs=100), dict(flavor="asan", lane="free", secs=120), dict(flavor="fast", lane="free", secs=100, args=["--set", "workload=storm"]), dict(flavor="asan", lane="free", secs=100, args=["--set", "workload=storm"])], 1000, 10000,
                 ["tokio, futures: black boxes", "a run that does not finish within the 60 s wall-clock watchdog is inconclusive, never a verdict",
                  "a process crash or AddressSanitizer report while pipelines are being closed is a violation (close() neither returned nor left the promised state)"]),
     "C11": plan("one evaluation = one item script (0-32, thorough 0-64 items over {ok, error, slow, slow-then-error}) pushed through one of the five StreamExecutor::spawn_* functions, with / without a futures timeout, "
@@ -235,7 +236,8 @@ META = {
                 "DESIGN.md section 2, C12"),
 }
 
-for _p in ("C05", "C06", "C13", "C14"):
+# a process crash (SIGSEGV / SIGABRT / SIGBUS / SIGILL, sanitizer or interpreter report) in any lane of any property is a violation (see `check`)
+for _p in PLANS:
     crash_matters(PLANS[_p])
 
 # ---- Miri lanes (DESIGN 6.5): the same workload functions, a few runs per shard process (the interpreter costs 2-50 s per run), on the kinds Miri can
